@@ -47,7 +47,8 @@ ALL_EXT = {e: f for f, es in WRITE_EXT.items() for e in es}
 DEST_STATES = ['absent', 'missing_dir', 'file_empty', 'file_junk',
                'symlink_file', 'symlink_dangling', 'symlink_dir', 'directory',
                'reuse']
-FAULTS = ['none', 'elem', 'bad_option', 'warn_elem', 'unencodable']
+FAULTS = ['none', 'elem', 'bad_option', 'warn_elem', 'unencodable',
+          'nonascii_ok']
 
 FORMAT_CLASSES = {
     'ds9': sorted(gen.ALL_CLASSES),
@@ -125,8 +126,10 @@ def _failing_region(rng, fmt, warn=False):
     raise AssertionError(kind)
 
 
-def _unencodable_region(rng, fmt, encoding):
+def _unencodable_region(rng, fmt, encoding, encodable=False):
     ch = {'utf-8': '\ud800', 'ascii': '\xe9', 'latin-1': 'λ'}[encoding]
+    if encodable:
+        ch = '\xe9'          # fine under utf-8 (the only case it is used in)
     text = 'bad' + ch + 'text'
     if fmt == 'ds9' and rng.chance(0.5):
         cls = rng.pick(['TextPixelRegion', 'TextSkyRegion'])
@@ -197,6 +200,17 @@ def gen_step(rng, fmt, dest_state, overwrite, fault, encoding, names, idx):
         pos = rng.randrange(n)
         regions[pos] = _unencodable_region(rng, fmt, encoding)
         label['pos'] = pos
+    elif fault == 'nonascii_ok':
+        # not a fault at all under UTF-8: the write must succeed and read
+        # back (the real interpreter reads UTF-8); under the other modelled
+        # encodings the step degenerates to a plain one
+        if encoding == 'utf-8' and fmt != 'fits':
+            pos = rng.randrange(n)
+            regions[pos] = _unencodable_region(rng, fmt, encoding,
+                                               encodable=True)
+            label['pos'] = pos
+        else:
+            label['fault'] = 'none'
     elif fault == 'bad_option':
         kwargs.update(_bad_kwargs(rng, fmt))
     step['api'] = 'Region' if (len(regions) == 1 and rng.chance(0.6)) \
@@ -383,7 +397,8 @@ class Run:
 
     def violation(self, oracle, step_i, step, detail, extra=None):
         sig = {'property': PROPERTY, 'oracle': oracle, 'fmt': step['fmt'],
-               'detail': detail}
+               'detail': detail,
+               'fault': (step.get('label') or {}).get('fault', '')}
         v = {'oracle': oracle, 'step': step_i, 'fmt': step['fmt'],
              'detail': detail, 'label': step.get('label'), 'extra': extra}
         from sim.findings import match_known
@@ -522,14 +537,25 @@ class Run:
             if refuse:
                 st['refused'] += 1
                 if not outcome[3]:
-                    # W1 exception class: only demanded when the very same
-                    # call succeeds against an absent destination
-                    if self.control_succeeds(step):
+                    # W1 exception class.  "Writing to a path that already
+                    # exists without overwrite=True raises OSError": demanded
+                    # whenever a writer is reached at all, i.e. unless the
+                    # format cannot be resolved (IORegistryError) or the call
+                    # passes a keyword the writer does not have (TypeError
+                    # when the arguments are bound).
+                    known_kw = {'ds9': {'precision'},
+                                'crtf': {'coordsys', 'fmt', 'radunit'},
+                                'fits': {'header'}}[step['fmt']]
+                    unbound = set(step['kwargs']) - known_kw
+                    if outcome[1] == 'IORegistryError' or \
+                            (unbound and outcome[1] == 'TypeError'):
+                        pass
+                    else:
                         self.violation(
                             'W1-class', i, step,
-                            f'existing destination without overwrite raised '
-                            f'{outcome[1]} (not OSError) although the same '
-                            f'call succeeds on an absent path')
+                            f'existing destination ({dest_before}) without '
+                            f'overwrite raised {outcome[1]}: {outcome[2]} '
+                            f'(not OSError)')
             return after
 
         # ---- the call returned
@@ -718,7 +744,7 @@ def abstract_states(result):
 
 # ------------------------------------------------------ driver interface
 RULE = ('seeded search: run i is assigned cell (i mod #cells) of format x '
-        'destination-state x overwrite x fault-kind (all 270 cells), the '
+        'destination-state x overwrite x fault-kind (all 324 cells), the '
         'remaining 0-3 steps, list lengths, failing position, API, format '
         'resolution, options and ambient configuration are drawn from the '
         'run seed. A state is the tuple (format, api, destination entry '
